@@ -530,12 +530,12 @@ func connScenario(r *rand.Rand, thorough bool, single bool, stallAt int) {
 	if r.Intn(3) > 0 {
 		nf = 1 + r.Intn(2)
 	}
-	kinds := []fault{fDrop, fKafkaErr, fSlowBody, fTrunc, fClose, fKafkaErr, fSlowBody, fTail}
+	// frames nobody (any longer) waits for (fBogus, fDup): with two or more waiters such a frame at the head of the buffer
+	// makes every waiter yield to the others in waitResponse; Peek is served from the buffer, so the socket's deadline
+	// never fires.  Until /repo (round 5, C06-D32) the waiters spun forever and these faults could only be used with a single
+	// caller; now a waiter whose deadline has passed gives the connection up, and every call of these scenarios has one.
+	kinds := []fault{fDrop, fKafkaErr, fSlowBody, fTrunc, fClose, fKafkaErr, fSlowBody, fTail, fBogus, fDup}
 	if nG == 1 {
-		// frames nobody (any longer) waits for: only with a single caller.  With two or more waiters such a
-		// frame at the head of the buffer makes every waiter spin in waitResponse forever (each sees
-		// concurrency() > 1 and yields; Peek is served from the buffer, so no deadline ever fires) — a
-		// liveness problem outside C06, see docs/notes/C06.md.
 		kinds = []fault{fBogus, fDup, fStall, fStall, fStall, fKafkaErr, fDrop, fTail}
 	}
 	for i := 0; i < nf; i++ {
@@ -798,6 +798,9 @@ func main() {
 		n, _ = strconv.Atoi(os.Args[1])
 	}
 	n += 8
+	// first: on a tree where stranded waiters spin for ever the random multi-caller scenarios below hang (the watchdog
+	// ends the run), so the deterministic case must already be on record; its two goroutines then keep spinning
+	strandedCase()
 	deadlineCases()
 	bytesCases(r, thorough)
 	consumedCases(r, thorough)
